@@ -2,7 +2,8 @@
 # tools/try_seed.sh <seed-dir-name> <PROP> [extra check args]: apply a seeded change to /repo, run the check, undo.
 S=$1; P=$2; shift 2
 cd /repo && git diff --quiet || { echo "/repo not clean"; exit 2; }
-git apply /verif/seeded/$S/patch.diff || git apply -3 /verif/seeded/$S/patch.diff || { echo "patch does not apply"; git checkout -- .; exit 2; }
+PATCH=/verif/seeded/$S/patch.diff; [ -f /verif/seeded/$S/patch_current.diff ] && PATCH=/verif/seeded/$S/patch_current.diff
+git apply $PATCH || { echo "patch does not apply (rebase it as patch_current.diff)"; git checkout HEAD -- .; exit 2; }
 cd /verif && ./check $P --tier quick "$@" > /tmp/seed_$S_$P.log 2>&1; RC=$?
 cd /repo && git checkout -- . && git status --short | head -3
 echo "seed $S on $P: exit $RC"; grep -c "^VIOLATION" /tmp/seed_$S_$P.log; grep "^VIOLATION" -A1 /tmp/seed_$S_$P.log | head -6 | cut -c1-400; tail -1 /tmp/seed_$S_$P.log
